@@ -52,6 +52,9 @@ type P struct {
 	cleanupStop chan struct{}
 }
 
+// maxConnsPerKey is the upper bound for Config.MaxConnsPerKey.
+const maxConnsPerKey = 4096
+
 func New(cfg Config) *P {
 	if cfg.New == nil {
 		cfg.New = func(context.Context, string) (Conn, error) {
@@ -64,6 +67,12 @@ func New(cfg Config) *P {
 		// anywhere, a negative channel size panics on the first Return.
 		// Keep no idle connections then, same as for 0.
 		cfg.MaxConnsPerKey = 0
+	}
+	if cfg.MaxConnsPerKey > maxConnsPerKey {
+		// The buffer for idle connections of a key is allocated as a whole
+		// on the first Return, a huge value panics there (or takes all
+		// memory).
+		cfg.MaxConnsPerKey = maxConnsPerKey
 	}
 
 	p := &P{
